@@ -162,6 +162,26 @@ def run_impl(case):
         out["cm"][name] = [_canon(getattr(cm, name)(alpha=a), (2,)) for a in alphas]
     out["default_alpha"] = _canon(metrics.tpr_ci(arr), (2,))["vals"] == _canon(metrics.tpr_ci(arr, 0.05), (2,))["vals"]
     out["unchanged"] = bool(np.array_equal(arr, before))
+    # the same kind of integer matrix held in a narrow integer dtype, cells up to the top of the dtype's range (sums of
+    # two cells do not fit the dtype): every count and rate equals that of the same numbers held as int64
+    narrow = []
+    if case["dtype"] == "int" and arr.size:
+        for ndt, mult in ((np.uint8, 37), (np.uint16, 9973), (np.int32, 104729 * 1009)):
+            hi = int(np.iinfo(ndt).max)
+            big = np.array([[(int(v) * mult + 11 * (i_ + 1)) % (hi + 1) for v in m_] for i_, m_ in enumerate(arr.reshape(-1, 4))],
+                           dtype=np.int64).reshape(arr.shape)
+            row = {"dtype": np.dtype(ndt).name, "matrix": [int(v) for v in big.reshape(-1)][:8], "promoting": [], "elementwise": []}
+            for name in Q_NAMES + R_NAMES:
+                try:
+                    with np.errstate(all="ignore"):
+                        same = bool(np.array_equal(np.asarray(getattr(metrics, name)(big.astype(ndt)), dtype=float),
+                                                   np.asarray(getattr(metrics, name)(big), dtype=float), equal_nan=True))
+                except Exception:
+                    same = False
+                if not same:
+                    row["promoting" if name in ("tp", "tn", "fp", "fn", "pop", "accuracy", "error_rate") else "elementwise"].append(name)
+            narrow.append(row)
+    out["narrow_matrix"] = narrow
     return out
 
 
@@ -418,6 +438,13 @@ def oracle(case, res):
     r = res["ok"]
     _check_path(case, r["metrics"], "metrics", fails)
     _check_path(case, r["cm"], "cm", fails)
+    for row in r.get("narrow_matrix") or []:
+        if row["promoting"]:
+            fails.append(("C04/narrow-int-matrix/selections-and-totals", f"[{row['dtype']} matrix {row['matrix']}...] {row['promoting']} differ from the values "
+                          "for the same numbers held as int64"))
+        if row["elementwise"]:
+            fails.append(("C04/narrow-int-matrix/two-cell-sums", f"[{row['dtype']} matrix {row['matrix']}...] {row['elementwise']} differ from the values for the "
+                          "same numbers held as int64: P, N, TOP, TON are formed as cell + cell in the matrix's own narrow dtype"))
     for k, al in enumerate(case["alphas"]):
         z = F(r["z"][k])
         if z is None or abs(float(z) - _zref(F(al))) > 1e-9 * max(1.0, _zref(F(al))):
